@@ -767,6 +767,27 @@ class Machine:
                     cont.exclude_circles.append(flat)
                     model -= pix
                 desc.append(sign + "circle")
+        # the documented order of construction is: + regions, - regions, + circles, - circles, + polygons, - polygons
+        for sign in ("+", "-"):
+            if self.ch.chance("comb_poly" + sign, 1, 3):
+                verts = gen_poly(self.ch, md, self.budget)
+                flat = []
+                for v in verts:
+                    flat += [math.degrees(v[0]), math.degrees(v[1])]
+                rad = np.radians(np.array(flat)).reshape((len(flat) // 2, 2))
+                vec = radec_to_vec(rad[:, 0], rad[:, 1])
+                try:
+                    pix = expand(hp.query_polygon(2 ** md, vec, inclusive=True, nest=True), md, md)
+                except Exception:     # noqa: BLE001 - healpy rejects the polygon: not a usable input
+                    self.out.stats["poly_rejected_by_healpy"] += 1
+                    continue
+                if sign == "+":
+                    cont.include_polygons.append(flat)
+                    model |= pix
+                else:
+                    cont.exclude_polygons.append(flat)
+                    model -= pix
+                desc.append(sign + "polygon")
         self.trace.append("#%d=combine_regions(maxdepth=%d,%s)" % (len(self.slots), md, ",".join(desc)))
         r = MIMAS.combine_regions(cont)
         self.out.stats["probe:combine_regions"] += 1
